@@ -1,7 +1,7 @@
 (* Props/C01.v — property C01: event onsets fall on the exact tick of their cumulative duration, drift-free.
    All statements are about the executable scheduler model (Sched/Model.v); lemmas in Sched/OnsetProofs.v
    and Sched/TimeProofs.v.  tau = tick length, N ev k = exact sum of the first k durations (all in units). *)
-From Isobar Require Import Base.Prelude Base.Round8 Sched.Model Sched.OnsetProofs Sched.TimeProofs.
+From Isobar Require Import Base.Prelude Base.Round8 Sched.Model Sched.OnsetProofs Sched.TimeProofs Sched.Obs Sched.Retick Sched.RetickProofs.
 
 (* Main statement.  A track on which start() has just run (next_event_time = current_time), unbounded
    event count, whose stream delivers ev 0, ev 1, ..., at least L events, each lasting >= one tick (on or
@@ -117,4 +117,157 @@ Proof.
   split; [intros [|[|[|k]]] Hk; simpl; try lia|].
   split; [intros [|[|[|i]]] Hi; try (exfalso; lia); reflexivity|].
   repeat split.
+Qed.
+
+(* ------------------------------------------------------------------------------------------------------------
+   Histories in which the resolution is re-configured during the run, and events that nudge their own track
+   (definitions in Sched/Retick.v, lemmas in Sched/RetickProofs.v).  These statements are about Timeline.tick
+   itself (tl_tick: note-off phase, action phase, the track's turn with the callback of an action event run
+   re-entrantly, the clocks) on a timeline whose only track [id] has been started (single_started; sh =
+   next_event_time - current_time at that moment: 0 after start(), x after nudge(x)).
+   cf j = the configuration in force during tick j (its tick length tau (cf j) may differ on every tick);
+   Tm cf j = exact sum of the lengths of ticks 0 .. j-1 = the time at which tick j happens; gap cf j = length of the
+   tick before tick j; nx k = the amount by which event k, while it is performed, nudges its own track;
+   NX ev nx k = exact sum over the events before k of (duration + own nudge). *)
+
+(* Main statement, most general form.  On EVERY tick j before the L-th event boundary the timeline still holds exactly the
+   track; its clock and the timeline's clock have advanced by exactly Tm cf j (cumulative, whatever the sequence of
+   resolutions); and the event handed to perform_event on tick j is ev k, with exactly k events performed before,
+   if and only if  Tm cf j - gap cf j < sh + NX k <= Tm cf j:  tick j is the first tick at or after start + the exact
+   sum of the preceding durations and self-nudges.  Durations must be at least one tick at every resolution in use. *)
+Theorem C01_retick_onsets : forall cf ev nx L id tl tr0 sh,
+  (forall j, 0 < tau (cf j)) -> (forall j, (2 <= fuel (cf j))%nat) -> (forall j, dev_fail (cf j) = None) ->
+  (forall k j, (k < L)%nat -> tau (cf j) <= e_dur (ev k) /\ tau (cf j) <= e_dur (ev k) + nx k) ->
+  (forall k, (k < L)%nat -> self_nudge cf id ev nx k) ->
+  single_started tl tr0 id sh -> - tau (cf 0%nat) < sh -> fed ev L (t_stream tr0) 0 ->
+  forall j k, (k < L)%nat -> Tm cf j < sh + NX ev nx L ->
+  exists trj, tracks (ticks_v cf tl 0 j) = [trj]
+    /\ t_cur trj = t_cur tr0 + Tm cf j /\ now (ticks_v cf tl 0 j) = now tl + Tm cf j
+    /\ (Tm cf j - gap cf j < sh + NX ev nx k <= Tm cf j
+         -> tick_event (cf j) trj = Some (ev k) /\ t_count trj = t_count tr0 + Z.of_nat k)
+    /\ (~ (Tm cf j - gap cf j < sh + NX ev nx k <= Tm cf j)
+         -> tick_event (cf j) trj = None \/ t_count trj <> t_count tr0 + Z.of_nat k).
+Proof.
+  intros cf ev nx L id tl tr0 sh Htau Hfuel Hfail Hdur Hself Hst Hsh Hfed j k Hk Hh.
+  exact (onset_iff_v cf ev nx L id (t_cur tr0) sh Htau Hfuel Hfail Hdur Hself tl tr0
+           (start_inv_v cf ev nx L id tl tr0 sh Hst Hsh Hfed) j k Hk Hh).
+Qed.
+Print Assumptions C01_retick_onsets.
+
+(* The resolution is re-configured once: n1 >= 1 ticks under cfg1 (tick length tau1), then `timeline.ticks_per_beat = N`,
+   then ticks under cfg2 (tau2); ordinary events (no self-nudge).  In the second segment the times of the ticks are
+   n1*tau1 + j*tau2 - exact, cumulative - for the track's clock and the timeline's clock, and event k is performed on
+   tick j >= 1 of the second segment iff  n1*tau1 + (j-1)*tau2 < sh + N k <= n1*tau1 + j*tau2: onsets after the change
+   follow the new resolution from the exact position reached at the old one. *)
+Theorem C01_retick_two_segments : forall cfg1 cfg2 n1 ev L id tl tr0 sh,
+  0 < tau cfg1 -> 0 < tau cfg2 -> (2 <= fuel cfg1)%nat -> (2 <= fuel cfg2)%nat ->
+  dev_fail cfg1 = None -> dev_fail cfg2 = None ->
+  (forall k, (k < L)%nat -> tau cfg1 <= e_dur (ev k) /\ tau cfg2 <= e_dur (ev k) /\ plain_event (ev k)) ->
+  single_started tl tr0 id sh -> - tau cfg1 < sh -> fed ev L (t_stream tr0) 0 -> (1 <= n1)%nat ->
+  forall j k, (1 <= j)%nat -> (k < L)%nat ->
+  let T := Z.of_nat n1 * tau cfg1 + Z.of_nat j * tau cfg2 in
+  T < sh + N ev L ->
+  let tlj := run_state cfg2 (run_state cfg1 tl (repeat OTick n1)) (repeat OTick j) in
+  exists trj, tracks tlj = [trj] /\ t_cur trj = t_cur tr0 + T /\ now tlj = now tl + T
+    /\ (T - tau cfg2 < sh + N ev k <= T
+         -> tick_event cfg2 trj = Some (ev k) /\ t_count trj = t_count tr0 + Z.of_nat k)
+    /\ (~ (T - tau cfg2 < sh + N ev k <= T)
+         -> tick_event cfg2 trj = None \/ t_count trj <> t_count tr0 + Z.of_nat k).
+Proof.
+  intros cfg1 cfg2 n1 ev L id tl tr0 sh Ht1 Ht2 Hf1 Hf2 Hd1 Hd2 Hev Hst Hsh Hfed Hn1 j k Hj Hk T HT tlj.
+  set (cf := two_cfg cfg1 cfg2 n1).
+  assert (Hc0 : cf 0%nat = cfg1) by (unfold cf, two_cfg; destruct (0 <? n1)%nat eqn:E; [reflexivity|apply Nat.ltb_ge in E; lia]).
+  assert (HcJ : cf (n1 + j)%nat = cfg2) by (unfold cf, two_cfg; destruct (n1 + j <? n1)%nat eqn:E; [apply Nat.ltb_lt in E; lia|reflexivity]).
+  pose proof (C01_retick_onsets cf ev (fun _ => 0) L id tl tr0 sh
+    (two_cfg_cases cfg1 cfg2 n1 (fun c => 0 < tau c) Ht1 Ht2)
+    (two_cfg_cases cfg1 cfg2 n1 (fun c => (2 <= fuel c)%nat) Hf1 Hf2)
+    (two_cfg_cases cfg1 cfg2 n1 (fun c => dev_fail c = None) Hd1 Hd2)) as H.
+  specialize (H ltac:(intros k0 j0 Hk0; destruct (Hev k0 Hk0) as [A [B _]]; rewrite Z.add_0_r; split;
+                      apply (two_cfg_cases cfg1 cfg2 n1 (fun c => tau c <= e_dur (ev k0)) A B))).
+  specialize (H ltac:(intros k0 Hk0; apply plain_self_nudge; apply (Hev k0 Hk0))).
+  specialize (H Hst ltac:(rewrite Hc0; exact Hsh) Hfed (n1 + j)%nat k Hk).
+  unfold cf in H. rewrite Tm_two, gap_two, !NX_plain, ticks_v_two in H by exact Hn1. fold cf in H.
+  replace (j =? 0)%nat with false in H by (symmetry; apply Nat.eqb_neq; lia).
+  rewrite HcJ in H. exact (H HT).
+Qed.
+Print Assumptions C01_retick_two_segments.
+
+(* Re-entrant nudges at a fixed resolution: event i, from inside its own performance (its action calls
+   track.nudge(nx i) on the track that is performing it), nudges the track.  Then event k is performed on tick j
+   iff  (j-1)*tau < sh + N k + XS nx k <= j*tau,  XS nx k = nx 0 + ... + nx (k-1): every nudge issued while an
+   earlier event was being performed shifts ALL later onsets by exactly its amount, before rounding to the grid;
+   none is lost, none is applied twice. *)
+Theorem C01_self_nudge : forall cfg ev nx L id tl tr0 sh,
+  0 < tau cfg -> (2 <= fuel cfg)%nat -> dev_fail cfg = None ->
+  (forall k, (k < L)%nat -> tau cfg <= e_dur (ev k) /\ tau cfg <= e_dur (ev k) + nx k) ->
+  (forall k, (k < L)%nat -> self_nudge (fun _ => cfg) id ev nx k) ->
+  single_started tl tr0 id sh -> - tau cfg < sh -> fed ev L (t_stream tr0) 0 ->
+  forall j k, (k < L)%nat -> Z.of_nat j * tau cfg < sh + N ev L + XS nx L ->
+  let tlj := run_state cfg tl (repeat OTick j) in
+  exists trj, tracks tlj = [trj] /\ t_cur trj = t_cur tr0 + Z.of_nat j * tau cfg
+    /\ ((Z.of_nat j - 1) * tau cfg < sh + N ev k + XS nx k <= Z.of_nat j * tau cfg
+         -> tick_event cfg trj = Some (ev k) /\ t_count trj = t_count tr0 + Z.of_nat k)
+    /\ (~ ((Z.of_nat j - 1) * tau cfg < sh + N ev k + XS nx k <= Z.of_nat j * tau cfg)
+         -> tick_event cfg trj = None \/ t_count trj <> t_count tr0 + Z.of_nat k).
+Proof.
+  intros cfg ev nx L id tl tr0 sh Htau Hfuel Hfail Hdur Hself Hst Hsh Hfed j k Hk Hh tlj.
+  pose proof (C01_retick_onsets (fun _ => cfg) ev nx L id tl tr0 sh (fun _ => Htau) (fun _ => Hfuel) (fun _ => Hfail)
+                (fun k0 _ Hk0 => Hdur k0 Hk0) Hself Hst Hsh Hfed j k Hk) as H.
+  rewrite Tm_const, !NX_split, ticks_v_const in H.
+  replace (gap (fun _ => cfg) j) with (tau cfg) in H by (destruct j; reflexivity).
+  destruct (H ltac:(lia)) as [trj [A [B [_ [C D]]]]].
+  exists trj. split; [exact A|]. split; [exact B|]. split.
+  - intros W. apply C. lia.
+  - intros W. apply D. lia.
+Qed.
+Print Assumptions C01_self_nudge.
+
+(* The clocks under re-configuration: after segments of ticks run under different resolutions the timeline reads the
+   exact sum of (number of ticks * tick length) over the segments - a change of resolution never moves the clock. *)
+Theorem C01_retick_timeline_time : forall cfg1 cfg2 ops1 ops2 tl,
+  all_ticks_ok cfg1 tl ops1 = true -> all_ticks_ok cfg2 (run_state cfg1 tl ops1) ops2 = true ->
+  now (run_state_segs [(cfg1, ops1); (cfg2, ops2)] tl) = now tl + ticks_in ops1 * tau cfg1 + ticks_in ops2 * tau cfg2.
+Proof.
+  intros cfg1 cfg2 ops1 ops2 tl H1 H2. cbn [run_state_segs].
+  rewrite (run_now cfg2 ops2 _ H2), (run_now cfg1 ops1 _ H1). reflexivity.
+Qed.
+Print Assumptions C01_retick_timeline_time.
+
+(* non-vacuity.  (e) 10 -> 6 ticks per beat in units of 1/30 beat (tau 3 -> 5) after 4 ticks, durations 10, 10, 20 units
+   (1/3, 1/3, 2/3 beat): a timeline on which schedule() has just run meets the hypotheses; the ticks of the second segment
+   happen at 12, 17, 22, ... so event 2 (exact time 20) is performed on its tick 2 - tick 6 of the run - whereas a clock
+   snapped to the new grid (15, 20, ...) or a stale tick length (15, 18, 21) would give tick 1 resp. tick 3.
+   (f) the same stream as self-nudging actions: callback 0 = nudge(own track, 2 units); times 0, 12, 24: ticks 0, 4, 8. *)
+Definition ex2_cfg1 : config := mkConfig 3 [(CbNone, [ONudge 0 2])] 0 0 false false None 8.
+Definition ex2_cfg2 : config := mkConfig 5 [(CbNone, [ONudge 0 2])] 0 0 false false None 8.
+Definition ex2_tl : timeline :=
+  run_state ex2_cfg1 tl0 [OSchedule (mkStream [REvent (ex_ev 0); REvent (ex_ev 1); REvent (ex_ev 2)] 0 false) None None None true None true].
+Definition ex2_tr : track := hd (new_track 0 None true None) (tracks ex2_tl).
+Definition ex3_ev (k : nat) : event := mkEvent (nth k [10; 10; 20] 20) true (KAction 0).
+Definition ex3_tl : timeline :=
+  run_state ex2_cfg1 tl0 [OSchedule (mkStream [REvent (ex3_ev 0); REvent (ex3_ev 1); REvent (ex3_ev 2)] 0 false) None None None true None true].
+Definition ex3_tr : track := hd (new_track 0 None true None) (tracks ex3_tl).
+Example C01_retick_nonvacuous :
+  single_started ex2_tl ex2_tr 0 0 /\ fed ex_ev 3 (t_stream ex2_tr) 0
+  /\ (forall k, (k < 3)%nat -> tau ex2_cfg1 <= e_dur (ex_ev k) /\ tau ex2_cfg2 <= e_dur (ex_ev k) /\ plain_event (ex_ev k))
+  /\ map (fun o => fst (fst o)) (run_segs [seg ex2_cfg1 [hop OTick 4]; seg ex2_cfg2 [hop OTick 3]] ex2_tl)
+     = [[CNoteOn 60 64 0]; []; [CNoteOff 60 0]; []; [CNoteOn 61 64 0]; [CNoteOff 61 0]; [CNoteOn 62 64 0]]
+  /\ now (run_state_segs [seg ex2_cfg1 [hop OTick 4]; seg ex2_cfg2 [hop OTick 3]] ex2_tl) = 4 * 3 + 3 * 5.
+Proof.
+  split; [repeat split; auto|].
+  split; [intros [|[|[|i]]] Hi; try (exfalso; lia); reflexivity|].
+  split; [intros [|[|[|k]]] Hk; simpl; try lia; repeat split; try lia|].
+  split; reflexivity.
+Qed.
+Example C01_self_nudge_nonvacuous :
+  single_started ex3_tl ex3_tr 0 0 /\ fed ex3_ev 3 (t_stream ex3_tr) 0
+  /\ (forall k, (k < 3)%nat -> self_nudge (fun _ => ex2_cfg1) 0 ex3_ev (fun _ => 2) k)
+  /\ map (fun k => cdiv (N ex3_ev k + XS (fun _ => 2) k) 3) [0; 1; 2]%nat = [0; 4; 8]
+  /\ map (fun o => fst (fst o)) (run ex2_cfg1 ex3_tl (repeat OTick 9))
+     = [[CCallback 0]; []; []; []; [CCallback 0]; []; []; []; [CCallback 0]].
+Proof.
+  split; [repeat split; auto|].
+  split; [intros [|[|[|i]]] Hi; try (exfalso; lia); reflexivity|].
+  split; [intros [|[|[|k]]] Hk; try (exfalso; lia); intros j; reflexivity|].
+  split; reflexivity.
 Qed.
